@@ -302,6 +302,12 @@ pub struct World {
     log: Arc<Mutex<Vec<Ob>>>,
     pub out: Vec<(usize, String)>,
     annotate: bool,
+    audit_now: bool,
+    /// constant cells: (gc id of the private never-firing stream their CellData owns, weak handle on that CellData)
+    const_cells: Vec<(u32, std::sync::Weak<dyn std::any::Any + Send + Sync>)>,
+    /// gc ids of objects whose handles are stored as VALUES (candidates of a `sel:` function): values holding
+    /// handles are counted references no tracer reports (known-finding class K5), so they are not audited
+    value_held: std::collections::HashSet<u32>,
 }
 
 impl World {
@@ -315,6 +321,9 @@ impl World {
             log: Arc::new(Mutex::new(Vec::new())),
             out: Vec::new(),
             annotate,
+            audit_now: false,
+            const_cells: Vec::new(),
+            value_held: std::collections::HashSet::new(),
         }
     }
 
@@ -416,6 +425,9 @@ impl World {
                     }
                 }
             }
+            if q.0 == 0 && self.audit_now {
+                ann.push(format!("A={}", self.audit()));
+            }
             ann.push(format!(
                 "d={} q={},{},{},{} cc={} ka={} f={} n={}",
                 q.0,
@@ -436,12 +448,121 @@ impl World {
         self.out.push((idx, line));
     }
 
+    /// Contract audit (C06/C07): for every collector object reachable from the handles this harness holds,
+    /// the strong listeners the context keeps alive and the collector's candidate buffer, the reference count
+    /// must equal the handles held on it plus the edges reported to it by the tracers of those objects -
+    /// the hypothesis (WF) of the collector theorems, evaluated on the real heap. Returns "ok" or the first
+    /// object whose count is not explained.
+    fn audit(&self) -> String {
+        use sodium_rust::verif::GcNode;
+        let mut ext: HashMap<u32, (u32, GcNode)> = HashMap::new();
+        let mut extra_in: HashMap<u32, u32> = HashMap::new();
+        let mut zero: Vec<GcNode> = Vec::new();
+        fn add_to(ext: &mut HashMap<u32, (u32, GcNode)>, g: &GcNode, k: u32) {
+            let e = ext.entry(g.verif_id()).or_insert((0, g.clone()));
+            e.0 += k;
+        }
+        let mut pending: Vec<(GcNode, u32)> = Vec::new();
+        let mut add = |g: &GcNode| pending.push((g.clone(), 1));
+        for o in self.objs.values() {
+            match o {
+                Obj::Stream(s) => add(&s.impl_.node.gc_node),
+                Obj::Cell(c) => add(&c.impl_.node.gc_node),
+                Obj::Sink(s) => {
+                    let st = s.stream();
+                    add(&st.impl_.node.gc_node);
+                }
+                Obj::CSink(s) => {
+                    let c = s.cell();
+                    add(&c.impl_.node.gc_node);
+                    let u = c.updates();
+                    add(&u.impl_.node.gc_node);
+                }
+                Obj::SLoop(l) => add(&l.impl_.gc_node),
+                Obj::CLoop(l) => {
+                    let c = l.cell();
+                    add(&c.impl_.node.gc_node);
+                    // the CellLoop's StreamLoop object is not reachable through the public API: it holds one
+                    // reported reference on the loop's stream
+                    let u = c.updates();
+                    // (one StreamLoop object, however many clones of the CellLoop handle exist)
+                    extra_in.insert(u.impl_.node.gc_node.verif_id(), 1);
+                    zero.push(u.impl_.node.gc_node.clone());
+                }
+                Obj::Router(_) => return "skipped".into(),
+            }
+        }
+        for l in self.listeners.values() {
+            add(&l.impl_.gc_node);
+        }
+        let kept: Vec<GcNode> = self.ctx.impl_.with_data(|d| d.keep_alive.iter().map(|l| l.gc_node.clone()).collect());
+        for g in &kept {
+            add(g);
+        }
+        for (g, k) in pending {
+            add_to(&mut ext, &g, k);
+        }
+        // a constant cell's CellData owns one reference on its private stream for as long as it lives
+        let mut const_owned: HashMap<u32, u32> = HashMap::new();
+        for (id, w) in &self.const_cells {
+            if w.upgrade().is_some() {
+                *const_owned.entry(*id).or_insert(0) += 1;
+            }
+        }
+        for g in zero {
+            add_to(&mut ext, &g, 0);
+        }
+        // reachable set
+        let mut seen: HashMap<u32, GcNode> = HashMap::new();
+        let mut stack: Vec<GcNode> = ext.values().map(|x| x.1.clone()).collect();
+        stack.extend(self.ctx.impl_.gc_ctx().verif_root_nodes());
+        let mut in_edges: HashMap<u32, u32> = HashMap::new();
+        while let Some(g) = stack.pop() {
+            if seen.contains_key(&g.verif_id()) {
+                continue;
+            }
+            seen.insert(g.verif_id(), g.clone());
+            for t in g.verif_edges() {
+                *in_edges.entry(t.verif_id()).or_insert(0) += 1;
+                stack.push(t);
+            }
+        }
+        let mut ids: Vec<u32> = seen.keys().cloned().collect();
+        ids.sort();
+        for id in ids {
+            let g = &seen[&id];
+            let sn = g.verif_snapshot();
+            let e = ext.get(&id).map(|x| x.0).unwrap_or(0);
+            if self.value_held.contains(&id) {
+                continue;
+            }
+            let want = e + in_edges.get(&id).cloned().unwrap_or(0) + extra_in.get(&id).cloned().unwrap_or(0)
+                + const_owned.get(&id).cloned().unwrap_or(0);
+            if sn.freed {
+                if e > 0 || in_edges.get(&id).cloned().unwrap_or(0) > 0 {
+                    return format!("freed-but-referenced:{}({})", id, g.verif_name());
+                }
+                continue;
+            }
+            if sn.ref_count != want {
+                return format!("{}({}):rc{}!={}h+{}e", id, g.verif_name(), sn.ref_count, e,
+                    want - e).replace(' ', "_");
+            }
+        }
+        "ok".into()
+    }
+
     pub fn run_items(&mut self, items: &[Item]) {
         for it in items {
             match it {
                 Item::Line(idx, l) => {
                     self.exec(l);
+                    // a collection has just run (explicit gc, or the transaction this line was) and no handle
+                    // has been dropped since: the heap contains no garbage awaiting collection
+                    let w0 = l.split_whitespace().next().unwrap_or("");
+                    self.audit_now = matches!(w0, "gc" | "send" | "tclose" | "tdrop");
                     self.flush(*idx);
+                    self.audit_now = false;
                 }
                 Item::Txn(open, inner, close) => {
                     let ctx = self.ctx.clone();
@@ -450,7 +571,9 @@ impl World {
                         self.flush(open);
                         self.run_items(inner);
                     });
+                    self.audit_now = true;
                     self.flush(*close);
+                    self.audit_now = false;
                 }
             }
         }
@@ -463,6 +586,20 @@ impl World {
 
     fn exec(&mut self, line: &str) {
         let w: Vec<&str> = line.split_whitespace().collect();
+        for tok in &w {
+            if let Some(hs) = tok.strip_prefix("sel:") {
+                for h in hs.split(',') {
+                    let h: usize = h.parse().unwrap();
+                    let id = match self.objs.get(&h) {
+                        Some(Obj::Cell(_)) | Some(Obj::CSink(_)) | Some(Obj::CLoop(_)) => {
+                            self.cell(h).impl_.node.gc_node.verif_id()
+                        }
+                        _ => self.stream(h).impl_.node.gc_node.verif_id(),
+                    };
+                    self.value_held.insert(id);
+                }
+            }
+        }
         let n = |i: usize| -> usize { w[i].parse().unwrap() };
         let ctx = self.ctx.clone();
         match w[0] {
@@ -480,7 +617,11 @@ impl World {
                 self.objs.insert(n(1), Obj::CSink(ctx.new_cell_sink(parse_val(w[2]))));
             }
             "const" => {
-                self.objs.insert(n(1), Obj::Cell(ctx.new_cell(parse_val(w[2]))));
+                let c = ctx.new_cell(parse_val(w[2]));
+                let private = c.updates().impl_.node.gc_node.verif_id();
+                let data: Arc<dyn std::any::Any + Send + Sync> = c.impl_.data.clone();
+                self.const_cells.push((private, Arc::downgrade(&data)));
+                self.objs.insert(n(1), Obj::Cell(c));
             }
             "never" => {
                 self.objs.insert(n(1), Obj::Stream(ctx.new_stream()));
